@@ -49,17 +49,29 @@ fn holder_list(cred: &Cred, sel: &Value) -> Vec<String> {
 }
 
 fn session(name: &str, hk: Hk, which: usize, issuer_alg: Alg, l: &mut Local) -> Option<Session> {
+    session_with(name, hk, which, issuer_alg, None, l)
+}
+
+/// `extra`: further claims that stay visible (the usual ones are hidden through an explicit path list then).
+fn session_with(name: &str, hk: Hk, which: usize, issuer_alg: Alg, extra: Option<Value>, l: &mut Local) -> Option<Session> {
     // the credential is always issued in compact form; format only matters at presentation time
     let cfg = Cfg { fmt: Fmt::Compact, alg: issuer_alg, decoys: false, hk };
-    let u = claims();
+    let mut u = claims();
+    let mut strat = Strat::All;
+    if let Some(Value::Object(m)) = extra {
+        for (k, v) in m {
+            u[k.as_str()] = v;
+        }
+        strat = Strat::Custom(["$.a", "$.b", "$.c", "$.c[0]", "$.c[1]"].iter().map(|s| s.to_string()).collect());
+    }
     let mut issuer = drive::new_issuer(keys::issuer_enc(issuer_alg, 0), Some(issuer_alg.name()));
-    let out = drive::issue(&mut issuer, &u, &Strat::All, hk.jwk(which), false, Fmt::Compact);
+    let out = drive::issue(&mut issuer, &u, &strat, hk.jwk(which), false, Fmt::Compact);
     // reuse the C05 oracle to take it apart; cnf for holder key #1 is compared loosely there, so do it by hand
     let s = out.ok()?;
     let parts = codec::parse(&s, Fmt::Compact)?;
     let an = crate::analysis::analyze(&parts).ok()?;
-    let h = crate::refmodel::hidden(&u, &Strat::All).ok()?;
-    let cred = Cred { u: u.clone(), strat: Strat::All, cfg, h, issued: s, parts, an };
+    let h = crate::refmodel::hidden(&u, &strat).ok()?;
+    let cred = Cred { u: u.clone(), strat, cfg, h, issued: s, parts, an };
     let inv: BTreeMap<&String, &Path> = cred.an.from_disc.iter().map(|(p, d)| (d, p)).collect();
     let genuine: Vec<(Path, String)> = cred.parts.disclosures.iter().filter_map(|d| inv.get(d).map(|p| ((*p).clone(), d.clone()))).collect();
     let s_small = holder_list(&cred, &json!({"a": true}));
@@ -182,7 +194,7 @@ fn forged_kbs(a: &Session, hk: Hk) -> Vec<KbItem> {
     // other signers
     add("signed_by_attacker_same_family", base_hdr.clone(), base_pl.clone(), &keys::attacker_enc(hk == Hk::Ed), alg, "attacker", true);
     add("signed_by_other_holder_key", base_hdr.clone(), base_pl.clone(), &hk.enc(1).unwrap(), alg, "h2", true);
-    if hk == Hk::Es {
+    if hk != Hk::Ed {
         add("signed_by_issuer_ec_key", base_hdr.clone(), base_pl.clone(), &keys::issuer_enc(Alg::ES256, 0), Algorithm::ES256, "issuer", true);
         add("signed_by_attacker_ed_key_alg_EdDSA", with(&base_hdr, "alg", json!("EdDSA")), base_pl.clone(), &keys::attacker_enc(true), Algorithm::EdDSA, "attacker", true);
     } else {
@@ -486,7 +498,9 @@ pub fn world(hk: Hk, issuer_alg: Alg, l: &mut Local) -> Option<World> {
     let a = session("A", hk, 0, issuer_alg, l)?;
     let b = session("B", hk, 0, issuer_alg, l)?;
     let c = session("C", hk, 1, issuer_alg, l)?;
-    let n = session("N", Hk::None, 0, issuer_alg, l)?;
+    // N: issued WITHOUT a holder key, although its (visible) claims carry the holder's public key under names that
+    // look like a confirmation (sub_jwk, jwk): nothing confirms a key, so no key-binding JWT may ever be accepted
+    let n = session_with("N", Hk::None, 0, issuer_alg, hk.jwk_value(0).map(|j| json!({"sub_jwk": j.clone(), "jwk": j.clone(), "holder": {"cnf": {"jwk": j}}})), l)?;
     let mut kbs = fixed_kbs();
     for (s, which) in [(&a, 0usize), (&b, 0), (&c, 1)] {
         for big in [false, true] {
@@ -769,6 +783,7 @@ pub fn run(rep: &Report) {
     run_world(rep, Hk::Es, Alg::HS256);
     run_world(rep, Hk::Ed, Alg::ES256);
     if !rep.quick() {
+        run_world(rep, Hk::EsLz, Alg::HS256);
         run_world(rep, Hk::Es, Alg::EdDSA);
         run_world(rep, Hk::Ed, Alg::HS256);
     }
